@@ -190,7 +190,7 @@ func (eng *RedisEmu) startServer() {
 	} else {
 		eng.iface = fmt.Sprintf("%s:%d", eng.iface, eng.port)
 	}
-	server, err := net.Listen("tcp", eng.iface)
+	server, err := netListen("tcp", eng.iface)
 	if err != nil {
 		fmt.Println("Error listening: ", err.Error())
 		os.Exit(1)
